@@ -30,11 +30,12 @@ the rules see:
                           whose attributes are never re-assigned outside constructors is replaced
                           everywhere
   S10 try/else            `try: A except: H(jumps) else: B` -> `try: A except: H` ; B
-  S11 reduce              `acc = init` ; `for t in it: acc = f(acc, t)` -> `acc = functools.reduce(f, it, init)`
+  S11 reduce              `acc = functools.reduce(f, it, init)` -> `acc = init` ; `for t in it: acc = f(acc, t)`   (f a name, path or lambda)
   S13 rebinding           `x = a` ; `x = f(x)` ; `use(x)`  ->  `x1 = a` ; `x = f(x1)` ; `use(x)`  (then S9 applies)
   S14 boolean returns     `return a and b`  ->  `if not a: return False` ; `return b`   (a syntactically boolean; `or` dually)
   S15 tuple assignment    `a, b = x, y`  ->  `a = x` ; `b = y`
   S16 return in try       `try: return e except: H(jumps)`  ->  `try: r = e except: H` ; `return r`
+  S18 conditional rebind  `if c: x = e(x)` ; rest(x)  ->  `x1 = e(x) if c else x` ; rest(x1)   (function level only)
   S12 literal loops       `for x in (a, b): S(x)`  ->  `S(a)` ; `S(b)`   (at most four simple elements, no
                           `break`, `continue` only as leading guards, x not used afterwards)
 
@@ -245,6 +246,21 @@ class _Expr(ast.NodeTransformer):
                 if isinstance(v, ast.FormattedValue):
                     v.value = self.visit(v.value)
         return new
+
+    def visit_Lambda(self, node: ast.Lambda) -> ast.AST:
+        self.generic_visit(node)
+        # eta: `lambda a, b: f(a, b)` is `f` (f an attribute path or a name other than a, b)
+        a = node.args
+        names = [x.arg for x in a.args]
+        b = node.body
+        if (
+            not (a.vararg or a.kwarg or a.kwonlyargs or a.posonlyargs or a.defaults) and isinstance(b, ast.Call) and not b.keywords
+            and len(b.args) == len(names) and all(isinstance(x, ast.Name) and x.id == n for x, n in zip(b.args, names))
+            and _simple(b.func) and not any(isinstance(n, ast.Name) and n.id in names for n in ast.walk(b.func))
+        ):
+            self.changed = True
+            return b.func
+        return node
 
     def visit_Tuple(self, node: ast.Tuple) -> ast.AST:
         self.generic_visit(node)
@@ -669,6 +685,28 @@ class Canon:
                     j = ast.Return(value=None)
                 guard = _loc(ast.If(test=negate(s.test), body=[_loc(j, s)], orelse=[]), s)
                 return [guard] + s.body, 0
+            # S18 conditional rebinding at function level: `if c: x = e(x)` ; rest(x)
+            #     ->  `x1 = e(x) if c else x` ; rest(x1)
+            if (
+                ctx == "func" and not s.orelse and len(s.body) == 1 and _plain_target(s.body[0]) is not None
+                and isinstance(s.body[0], ast.Assign)
+            ):
+                x = _plain_target(s.body[0])
+                facts = NameFacts(self.fn)
+                later_store = any(
+                    isinstance(n, ast.Name) and n.id == x and isinstance(n.ctx, (ast.Store, ast.Del)) for r_ in rest for n in ast.walk(r_)
+                )
+                declared = any(isinstance(n, (ast.Global, ast.Nonlocal)) and x in n.names for n in _own_nodes(self.fn))
+                if x is not None and not later_store and not declared and x not in facts.nested_refs and x not in facts.loop_targets:
+                    used = set(facts.stores) | set(facts.loads) | facts.special
+                    k = 1
+                    while f"{x}__{k}" in used:
+                        k += 1
+                    x1 = f"{x}__{k}"
+                    ie = _loc(ast.IfExp(test=s.test, body=s.body[0].value, orelse=ast.Name(id=x, ctx=ast.Load())), s)
+                    first = _loc(ast.Assign(targets=[ast.Name(id=x1, ctx=ast.Store())], value=ie), s)
+                    ren = _Subst(x, ast.Name(id=x1, ctx=ast.Load()))
+                    return [first] + [ren.visit(r_) for r_ in rest], len(rest)
             # S8 `if any(...): J`
             r = self._if_any(s)
             if r is not None:
@@ -718,7 +756,11 @@ class Canon:
                     over.value = ren.visit(over.value)  # type: ignore[attr-defined]
                     keep = _loc(ast.Assign(targets=[ast.Name(id=x, ctx=ast.Store())], value=ast.Name(id=x1, ctx=ast.Load())), s)
                     return [first, _loc(ast.If(test=ren.visit(nxt.test), body=[over], orelse=[keep]), nxt)], 1
-            # S7 accumulation loops, S11 reduce
+            # S11 `x = functools.reduce(f, it, init)`  ->  `x = init` ; `for t in it: x = f(x, t)`
+            r5 = self._unreduce(s.value, t.id if isinstance(t, ast.Name) else None, s)
+            if r5 is not None:
+                return r5, 0
+            # S7 accumulation loops
             r2 = self._accumulate(s, rest)
             if r2 is not None:
                 return r2
@@ -735,6 +777,17 @@ class Canon:
             if isinstance(v, ast.IfExp):
                 g = _loc(ast.If(test=v.test, body=[_loc(ast.Return(value=v.body), s)], orelse=[]), s)
                 return [g, _loc(ast.Return(value=v.orelse), s)], 0
+            # S11 `return functools.reduce(...)`
+            if self._is_reduce(v):
+                facts = NameFacts(self.fn)
+                used = set(facts.stores) | set(facts.loads) | facts.special
+                k = 1
+                while f"_folded{k if k > 1 else ''}" in used:
+                    k += 1
+                name = f"_folded{k if k > 1 else ''}"
+                r6 = self._unreduce(v, name, s)
+                if r6 is not None:
+                    return r6 + [_loc(ast.Return(value=ast.Name(id=name, ctx=ast.Load())), s)], 0
             # S14 `return a and b` (a boolean)  ->  `if not a: return False` ; `return b`
             if isinstance(v, ast.BoolOp) and len(v.values) >= 2 and all(is_bool_expr(x) for x in v.values[:-1]):
                 is_and = isinstance(v.op, ast.And)
@@ -831,6 +884,43 @@ class Canon:
         loop = self._loop(gen, test, [_loc(ast.Return(value=ast.Constant(value=hit)), s)], s)
         return [loop, _loc(ast.Return(value=ast.Constant(value=miss)), s)]
 
+    # -- S11
+    def _is_reduce(self, e: ast.expr) -> bool:
+        return (
+            isinstance(e, ast.Call) and len(e.args) == 3 and not e.keywords
+            and ((isinstance(e.func, ast.Attribute) and e.func.attr == "reduce" and isinstance(e.func.value, ast.Name) and e.func.value.id == "functools")
+                 or (isinstance(e.func, ast.Name) and e.func.id == "reduce"))
+        )
+
+    def _unreduce(self, e: ast.expr, acc: Optional[str], at: ast.stmt) -> Optional[List[ast.stmt]]:
+        if acc is None or not self._is_reduce(e):
+            return None
+        f, it, init = e.args  # type: ignore[attr-defined]
+        if _mentions(it, {acc}) or _mentions(f, {acc}):
+            return None
+        facts = NameFacts(self.fn)
+        used = set(facts.stores) | set(facts.loads) | facts.special
+        k = 1
+        while f"_item{k if k > 1 else ''}" in used:
+            k += 1
+        item = f"_item{k if k > 1 else ''}"
+        a_load = ast.Name(id=acc, ctx=ast.Load())
+        i_load = ast.Name(id=item, ctx=ast.Load())
+        if isinstance(f, ast.Lambda):
+            la = f.args
+            if la.vararg or la.kwarg or la.kwonlyargs or la.defaults or la.posonlyargs or len(la.args) != 2:
+                return None
+            step = _Subst(la.args[0].arg, a_load).visit(copy.deepcopy(f.body))
+            step = _Subst(la.args[1].arg, i_load).visit(step)
+        elif _simple(f):
+            step = ast.Call(func=f, args=[a_load, i_load], keywords=[])
+        else:
+            return None
+        first = _loc(ast.Assign(targets=[ast.Name(id=acc, ctx=ast.Store())], value=init), at)
+        body = _loc(ast.Assign(targets=[ast.Name(id=acc, ctx=ast.Store())], value=step), at)
+        loop = _loc(ast.For(target=ast.Name(id=item, ctx=ast.Store()), iter=it, body=[body], orelse=[], type_comment=None), at)
+        return [first, loop]
+
     # -- S12
     def _unroll(self, s: ast.For, rest: List[ast.stmt]) -> Optional[List[ast.stmt]]:
         if not isinstance(s.iter, (ast.Tuple, ast.List)) or not (1 <= len(s.iter.elts) <= 4):
@@ -907,15 +997,6 @@ class Canon:
             and not _mentions(one.value, {v}) and not _mentions(one.targets[0].slice, {v})
         ):
             new_value = ast.DictComp(key=one.targets[0].slice, value=one.value, generators=[gen])
-        elif (
-            not conds and isinstance(one, ast.Assign) and len(one.targets) == 1 and isinstance(one.targets[0], ast.Name)
-            and one.targets[0].id == v and isinstance(one.value, ast.Call) and len(one.value.args) == 2 and not one.value.keywords
-            and isinstance(one.value.args[0], ast.Name) and one.value.args[0].id == v and isinstance(loop, ast.For)
-            and isinstance(loop.target, ast.Name) and isinstance(one.value.args[1], ast.Name) and one.value.args[1].id == loop.target.id
-            and not _mentions(one.value.func, {v, loop.target.id})
-        ):
-            red = ast.Attribute(value=ast.Name(id="functools", ctx=ast.Load()), attr="reduce", ctx=ast.Load())
-            new_value = ast.Call(func=red, args=[one.value.func, loop.iter, s.value], keywords=[])
         if new_value is None:
             return None
         return [_loc(ast.Assign(targets=[t], value=_loc(new_value, loop)), s)], 1
